@@ -204,6 +204,19 @@ def run(ctx):
             if not (np.array_equal(r.wave, s.wave) and np.allclose(r.value, expect, rtol=1e-12) and r.waveunit == u and r is not s
                     and not np.shares_memory(r.value, s.value)):
                 ctx.violation({'kind': 'scalar-or-vector-operand', 'op': name}, {'spectrum': sj, 'other': other}, case=None)
+        # addition and multiplication are commutative - also written with the scalar on the left (python and numpy scalars)
+        for sym, left, expect in (('+', lambda a: a + s, lambda a: vals + a), ('*', lambda a: a * s, lambda a: vals * a)):
+            for kk in (k, np.float64(k), int(k) if float(k).is_integer() else k):
+                ctx.case(('scalar-left', sym, type(kk).__name__, u, str(w)))
+                try:
+                    r = left(kk)
+                    ok = isinstance(r, type(s)) and np.array_equal(r.wave, s.wave) and np.allclose(r.value, expect(float(kk)), rtol=1e-12) and r.waveunit == u
+                    err = None
+                except Exception as ex:
+                    ok, err = False, repr(ex)[:160]
+                if not ok:
+                    ctx.violation({'kind': 'scalar-on-the-left', 'op': sym, 'scalar_type': 'numpy' if isinstance(kk, np.generic) else 'python'},
+                                  {'spectrum': sj, 'scalar': float(kk), 'error': err}, case=None)
         if sp.state_digest(s) != d0:
             ctx.violation({'kind': 'operand-modified', 'op': 'scalar'}, {'spectrum': sj}, case=None)
     # quadratic / cubic interpolation is outside the model: only the relational clauses (commutativity, independence of the unit
